@@ -157,6 +157,7 @@ STRUCTURAL_KINDS = [
     "struct-name", "prop-type", "prop-optional", "prop-name", "extends", "enum-value", "enum-type", "method", "direction",
     "params", "result", "partial", "errordata", "regopts", "regmethod", "version", "drop-struct", "drop-alias", "swap-structs",
     "alias-type", "alias-name", "swap-aliases", "notif-method", "drop-enum", "literal-prop", "array-element", "or-order",
+    "or-to-tuple", "tuple-to-or", "and-to-or", "array-to-map",
 ]
 
 
@@ -240,6 +241,34 @@ def structural_edit(doc: dict, kind: Optional[str] = None) -> st.SearchStrategy:
             cands = [(s, p) for s in d["structures"] for p in s["properties"] if p["type"]["kind"] == "array"]
             s, p = pick(cands)
             p["type"]["element"] = other_t if p["type"]["element"] != other_t else {"kind": "base", "name": "string"}
+        elif k in ("or-to-tuple", "tuple-to-or", "and-to-or", "array-to-map"):
+            # the same member types under a different composite kind
+            frm, to = {"or-to-tuple": ("or", "tuple"), "tuple-to-or": ("tuple", "or"), "and-to-or": ("and", "or"), "array-to-map": ("array", "map")}[k]
+            hits: List[dict] = []
+
+            def scan(t):
+                if isinstance(t, dict) and "kind" in t:
+                    if t["kind"] == frm:
+                        hits.append(t)
+                    for v in t.values():
+                        if isinstance(v, list):
+                            for x in v:
+                                scan(x)
+                        elif isinstance(v, dict):
+                            scan(v)
+            for s in d["structures"]:
+                for p in s["properties"]:
+                    scan(p["type"])
+            for m in d["requests"] + d["notifications"]:
+                for f in ("params", "result", "partialResult", "registrationOptions"):
+                    if isinstance(m.get(f), dict):
+                        scan(m[f])
+            tnode = pick(hits)
+            if to == "map":
+                el = tnode.pop("element")
+                tnode.update({"kind": "map", "key": {"kind": "base", "name": "string"}, "value": el})
+            else:
+                tnode["kind"] = to
         elif k == "or-order":
             cands = [(s, p) for s in d["structures"] for p in s["properties"] if p["type"]["kind"] == "or" and p["type"]["items"][0] != p["type"]["items"][-1]]
             s, p = pick(cands)
